@@ -34,13 +34,14 @@ void run_case(ByteSource& s, CaseInfo& ci) {
   p.g_timedep = p.manufactured_scalar || !(mask & M_OS);
   gen_problem_coeffs(s, p);
   TSolver S(p);
-  S.set_mask(mask);
+  unsigned perm = s.choose(120);  // order in which the five switch setters are called
+  S.set_mask(mask, perm);
   S.Set_GSL_step(STEPPERS[stepper]); S.Set_AdaptiveStep(adaptive);
   S.Set_rel_error(1e-10); S.Set_abs_error(1e-10); S.Set_h(1e-4); S.Set_h_max(0.05);
   unsigned nsteps = fixed_steps(stepper, dur);
   if (!adaptive) S.Set_NumSteps(nsteps);
   if (any_off) S.Set_AnyNumerics(false);
-  std::string desc = fmt("nx=%d nsun=%d nrhos=%d nscalars=%d mask=%u%s family=%d mscalar=%d stepper=%s/%s(%u) t_ini=%.17g dt=%.17g", p.nx, p.d, p.nr, p.ns, mask, any_off ? "(AnyNumerics off)" : "",
+  std::string desc = fmt("nx=%d nsun=%d nrhos=%d nscalars=%d mask=%u(setter order %u)%s family=%d mscalar=%d stepper=%s/%s(%u) t_ini=%.17g dt=%.17g", p.nx, p.d, p.nr, p.ns, mask, perm, any_off ? "(AnyNumerics off)" : "",
                          p.family, (int)p.manufactured_scalar, STEPPER_NAMES[stepper], adaptive ? "adaptive" : "fixed", nsteps, p.t_ini, dur);
   ci.sample = desc;
   ci.label(fmt("mask-%u", mask)); ci.label(fmt("%s-%s", STEPPER_NAMES[stepper], adaptive ? "adaptive" : "fixed")); ci.label(fmt("family-%d", p.family));
